@@ -1,6 +1,7 @@
 import Driver.Sexp
 import Driver.Codec
 import IweModel.Spec.Events
+import IweModel.Spec.Flat
 
 /-!
 `(reader.read #content (events ev*))` → `(reader <grammar> <result>)`
@@ -77,6 +78,13 @@ def readOp (content : String) (evs : List Sexp) : Except String Sexp := do
     match Reader.read bytes evs with
     | .ok (blocks, md) => .list [.atom "ok", .list [.atom "doc", optStrS md, .list (.atom "blocks" :: blocks.map dblockS)]]
     | .error site => .list [.atom "error", siteS site]
-  return .list [.atom "reader", .atom grammar, result]
+  -- the two sides of `C01.reader_content`, evaluated by the definitions the theorem is about
+  let flatBlocks : Sexp :=
+    match Reader.read bytes evs with
+    | .ok (blocks, _) => .list [.atom "some", .str (Flat.blocks blocks)]
+    | .error _ => .atom "none"
+  let flat : Sexp := .list [.atom "flat", .atom (if Flat.htmlTextFree [] evs then "true" else "false"),
+    .str (Flat.events false evs), flatBlocks]
+  return .list [.atom "reader", .atom grammar, result, flat]
 
 end Iwe.ReaderOps
